@@ -1697,14 +1697,19 @@ func builtinInsertSorted(env *LEnv, args *LVal) *LVal {
 	if !sortErr.IsNil() {
 		return sortErr
 	}
+	// The result is sized from the cells captured before the search.  The
+	// predicate and the key function are user code and may have shrunk or grown
+	// list in place (elpspath:?del!, append!); list.Len() read again here would
+	// no longer match the index the search computed against inCells, and the
+	// copies below would slice out of range.
 	var v *LVal
 	var cells []*LVal
 	switch typespec.Str {
 	case "vector":
-		v = Array(QExpr([]*LVal{Int(1 + list.Len())}), nil)
+		v = Array(QExpr([]*LVal{Int(1 + len(inCells))}), nil)
 		cells = seqCells(v)
 	case "list":
-		cells = make([]*LVal, 1+list.Len())
+		cells = make([]*LVal, 1+len(inCells))
 		v = QExpr(cells)
 	default:
 		return env.Errorf("type specifier is invalid: %v", typespec)
